@@ -59,15 +59,14 @@ def accounting(case, nlines, delivered, errors, accepted, what):
 def check_kinds(case, stats):
     kinds = case["kinds"]
     toks = [tables.stub_token({k, "Other"}, i + 1) for i, k in enumerate(kinds)]
-    b = tables.RecordingBuilder()
-    p = gh.Parser(b)
     delivered = []
-    orig = b.build
 
-    def rec(t):
-        delivered.append(("EOF" if t.eof() else t.matched_type, t.location["line"]))
-        orig(t)
-    b.build = rec
+    class Delivered(tables.RecordingBuilder):
+        def build(self, t):
+            delivered.append(("EOF" if t.eof() else t.matched_type, t.location["line"]))
+            super().build(t)
+    b = Delivered()
+    p = gh.Parser(b)
     try:
         p.parse(tables.ListScanner(toks), tables.StubMatcher())
         ok, errs = True, []
